@@ -31,19 +31,65 @@ def checks():
     return [c["property_id"] for c in m["checks"]]
 
 
-def run_one(d: Path, props):
+_base_cache: dict = {}
+
+
+def _check(tree: Path, p: str, tag: str):
+    fd = tree / f"findings-{tag}"
+    env = dict(os.environ, PDTSA_NO_EVIDENCE="1", PDTSA_FINDINGS_DIR=str(fd))
+    c = subprocess.run([str(VERIF / "check"), p, "--repo", str(tree)], capture_output=True, text=True, env=env, timeout=1800)
+    keys = {}
+    for f in (fd / p).glob("*.json") if (fd / p).exists() else []:
+        try:
+            j = json.loads(f.read_text())
+            keys[j["key"]] = f"{j.get('file', '')}:{j.get('function', '')} [{j.get('rule', '')}] {j.get('message', '')[:200]}"
+        except Exception:
+            pass
+    err = [ln for ln in c.stdout.splitlines() if "ANALYSIS-ERROR" in ln]
+    return c.returncode, keys, err
+
+
+def _materialise(commit: str | None, dest: Path):
+    if commit:
+        r = subprocess.run(f"git -C {REPO} archive {commit} src | tar -x -C {dest}", shell=True, capture_output=True, text=True)
+        if r.returncode != 0:
+            raise RuntimeError(r.stderr)
+    else:
+        shutil.copytree(REPO / "src", dest / "src", ignore=shutil.ignore_patterns("__pycache__", "*.pyc"))
+
+
+def base_results(commit: str | None, props):
+    """results of the checks on the unpatched tree the seeder worked on (violations already present there, e.g. defects
+    fixed in /repo afterwards, are not attributed to the seeded change)"""
+    out = {}
+    for p in props:
+        k = (commit, p)
+        if k not in _base_cache:
+            tmp = Path(tempfile.mkdtemp(prefix="pdtsa-seedbase-"))
+            try:
+                _materialise(commit, tmp)
+                _base_cache[k] = _check(tmp, p, "base")
+            finally:
+                shutil.rmtree(tmp, ignore_errors=True)
+        out[p] = _base_cache[k]
+    return out
+
+
+def run_one(d: Path, props, commit=None):
     tmp = Path(tempfile.mkdtemp(prefix="pdtsa-seeded-"))
     try:
-        shutil.copytree(REPO / "src", tmp / "src", ignore=shutil.ignore_patterns("__pycache__", "*.pyc"))
+        _materialise(commit, tmp)
         r = subprocess.run(["patch", "-p1", "-s", "-d", str(tmp), "-i", str(d / "patch.diff")], capture_output=True, text=True)
         if r.returncode != 0:
             return d.name, {"error": "patch does not apply: " + (r.stdout + r.stderr)[-300:]}
+        base = base_results(commit, props) if commit else {p: (0, {}, []) for p in props}
         res = {}
         for p in props:
-            env = dict(os.environ, PDTSA_NO_EVIDENCE="1", PDTSA_FINDINGS_DIR=str(tmp / "findings"))
-            c = subprocess.run([str(VERIF / "check"), p, "--repo", str(tmp)], capture_output=True, text=True, env=env, timeout=900)
-            lines = [ln for ln in c.stdout.splitlines() if ln.startswith("  src/") or "ANALYSIS-ERROR" in ln]
-            res[p] = {"exit": c.returncode, "reports": [ln.strip()[:260] for ln in lines][:4]}
+            rc, keys, err = _check(tmp, p, "patched")
+            brc, bkeys, berr = base[p]
+            new = {k: v for k, v in keys.items() if k not in bkeys}
+            status = 1 if new else (2 if rc == 2 and brc != 2 else 0)
+            res[p] = {"exit": status, "reports": [v[:260] for v in new.values()][:4] + err[:1]}
         return d.name, res
     finally:
         shutil.rmtree(tmp, ignore_errors=True)
@@ -64,7 +110,7 @@ def main():
     def job(d):
         meta = json.loads((d / "meta.json").read_text()) if (d / "meta.json").exists() else {}
         props = [meta.get("property")] if a.own and meta.get("property") in allp else allp
-        return run_one(d, props)
+        return run_one(d, props, meta.get("base_commit"))
 
     with ThreadPoolExecutor(max_workers=a.jobs) as ex:
         for name, res in ex.map(job, dirs):
@@ -74,7 +120,9 @@ def main():
                 continue
             hit = [p for p, r in res.items() if r["exit"] == 1]
             err = [p for p, r in res.items() if r["exit"] == 2]
-            print(f"{name:12s} caught by: {', '.join(hit) or '-'}" + (f"   analysis-error: {', '.join(err)}" if err else ""))
+            benign = name.endswith("-r")
+            word = "FALSE ALARM in" if benign and hit else "silent" if benign else "caught by:"
+            print(f"{name:12s} {word} {', '.join(hit) or ('' if benign else '-')}" + (f"   analysis-error: {', '.join(err)}" if err else ""))
             for p in hit[:3]:
                 for ln in res[p]["reports"][:1]:
                     print(f"             {p}: {ln[:200]}")
